@@ -891,10 +891,16 @@ class PytatoKeyBuilder(LoopyKeyBuilder):
         self.rec(key_hash, key.data.tobytes())
 
     def update_for_numpy_scalar(self, key_hash: Any, key: Any) -> None:
-        # bytes alone do not identify a scalar either: np.float32(2) and
-        # np.int32(1073741824) have the same bytes
-        self.rec(key_hash, key.dtype.str)
-        super().update_for_numpy_scalar(key_hash, key)
+        import numpy as np
+        if isinstance(key, np.integer):
+            # interchangeable with (and equal to) the Python int of the same
+            # value wherever expressions hold integers (indices, shapes, shifts)
+            self.update_for_int(key_hash, int(key))
+        else:
+            # bytes alone do not identify a scalar: np.float32(2) and
+            # np.int32(1073741824) have the same bytes
+            self.rec(key_hash, key.dtype.str)
+            super().update_for_numpy_scalar(key_hash, key)
 
     def update_for_TaggableCLArray(self, key_hash: Any, key: Any) -> None:
         from arraycontext.impl.pyopencl.taggable_cl_array import (  # pylint: disable=import-error
